@@ -166,6 +166,7 @@ def generate(repo):
     cv, _ = load(repo, 'prysm/convolution.py')
     ot, _ = load(repo, 'prysm/otf.py')
     dg, _ = load(repo, 'prysm/degredations.py')
+    ob, _ = load(repo, 'prysm/objects.py')
     dt, _ = load(repo, 'prysm/detector.py')
     ft, _ = load(repo, 'prysm/fttools.py')
 
@@ -563,6 +564,44 @@ def generate(repo):
         return f'def olpfFt {KH} (cos : K → K) (fx fy width_x width_y : K) : K :=\n  ' + body_to_lean(fn.body, tr)
     g.item('olpf_ft', 'prysm/detector.py:olpf_ft', lambda: get_def(dt, 'olpf_ft'), olpf,
            f'def olpfFt {KH} (cos : K → K) (fx fy width_x width_y : K) : K := {M}.olpfFt cos fx fy width_x width_y')
+
+    # ------------------------------------------------------------------ analytic transforms of objects (objects.py)
+    def slit():
+        fn = get_def(ob, 'slit_ft')
+        tr = Tr({k: k for k in ('fx', 'fy', 'width_x', 'width_y')}, mode='num', funcs={'np.sinc': 'sinc'})
+        COND = {'width_x is not None and width_y is not None': '(hasx && hasy)', 'width_y is not None and width_x is not None': '(hasx && hasy)',
+                'width_x is not None and width_y is None': '(hasx && !hasy)', 'width_y is None and width_x is not None': '(hasx && !hasy)',
+                'width_x is None and width_y is not None': '(!hasx && hasy)', 'width_y is not None and width_x is None': '(!hasx && hasy)'}
+
+        def val(stmts):
+            if len(stmts) != 1:
+                raise Untranslatable('slit_ft branch with more than one statement')
+            st = stmts[0]
+            if isinstance(st, ast.If):
+                c = COND.get(ast.unparse(st.test))
+                if c is None:
+                    raise Untranslatable(f'slit_ft condition {ast.unparse(st.test)}')
+                if not st.orelse:
+                    raise Untranslatable('slit_ft: if without else')
+                return f'(if {c} then {val(st.body)} else {val(st.orelse)})'
+            if isinstance(st, ast.Return):
+                v = st.value
+                if isinstance(v, ast.Call) and isinstance(v.func, ast.Attribute) and v.func.attr == 'astype':
+                    v = v.func.value          # a dtype cast does not change the value
+                return tr.expr(v)
+            raise Untranslatable(f'slit_ft statement {ast.unparse(st)[:50]}')
+        body = [s_ for s_ in fn.body if not (isinstance(s_, ast.Expr) and isinstance(s_.value, ast.Constant))]
+        return f'def slitFt {KH} (sinc : K → K) (fx fy width_x width_y : K) (hasx hasy : Bool) : K :=\n  {val(body)}'
+    g.item('slit_ft', 'prysm/objects.py:slit_ft', lambda: get_def(ob, 'slit_ft'), slit,
+           f'def slitFt {KH} (sinc : K → K) (fx fy width_x width_y : K) (hasx hasy : Bool) : K := '
+           f'{M}.slitFt sinc fx fy width_x width_y hasx hasy')
+
+    def pinhole():
+        fn = get_def(ob, 'pinhole_ft')
+        tr = Tr({'np.pi': 'pi', 'fr': 'fr', 'radius': 'radius'}, mode='num', funcs={'jinc': 'jinc'})
+        return f'def pinholeFt {KH} (jinc : K → K) (pi fr radius : K) : K :=\n  ' + body_to_lean(fn.body, tr)
+    g.item('pinhole_ft', 'prysm/objects.py:pinhole_ft', lambda: get_def(ob, 'pinhole_ft'), pinhole,
+           f'def pinholeFt {KH} (jinc : K → K) (pi fr radius : K) : K := {M}.pinholeFt jinc pi fr radius')
 
     return g.finish()
 
